@@ -63,9 +63,9 @@ def directed(rng, tier):
 
 def generate(ctx):
     rng = ctx.rng
-    for case in directed(rng, ctx.tier):
+    odd = [(c, rng.choice([16, 16, 18, 4096])) for c in S.oab_odd_uncompressed_cases(rng, 12 if ctx.tier == "quick" else 200)]
+    for case, b in [(c, rng.choice(BUFS)) for c in directed(rng, ctx.tier)] + odd:
         order = case["meta"]["order"]; inc = len(order) > 1
-        b = rng.choice(BUFS)
         lines = S.file_lines(case) + ["new oab", f"param i0 DECOMPBUF {b}",
                                       f"decompressinc i0 {order[0]} {order[1]} out0" if inc else f"decompress i0 {order[0]} out0", "destroy i0"]
         yield lines, dict(family="oab.directed", bufs=[b], plan=dict(directed=case["meta"]["directed"]), want=digest(case["members"][0]["data"]), nontrivial=True)
